@@ -145,3 +145,17 @@ pub fn run_entry_points(sc: &Value) -> Value {
     if !trailing && sc["text_order"] != true { outs.push(if Json::deserialize::<Metablock>(&doc).is_ok() { "ok" } else { "err" }); }
     json!({"outcome": outs.join("/")})
 }
+
+/// C17: MetadataWrapper::try_from_bytes on several white-space spellings of one document
+pub fn run_text_whitespace(sc: &Value) -> Value {
+    use in_toto::models::MetadataWrapper;
+    let mut kinds: Vec<&str> = Vec::new();
+    let mut vals: Vec<Value> = Vec::new();
+    for t in sc["texts"].as_array().unwrap() {
+        match MetadataWrapper::try_from_bytes(t.as_str().unwrap().as_bytes()) {
+            Ok(m) => { kinds.push("ok"); vals.push(serde_json::to_value(&m).unwrap()); }
+            Err(_) => kinds.push("err"),
+        }
+    }
+    json!({"outcome": kinds.join("/"), "values_equal": vals.windows(2).all(|w| w[0] == w[1])})
+}
